@@ -309,7 +309,7 @@ int main(int argc, char** argv) {
 		try { q = json::parse(line); } catch (...) { std::cout << "{\"error\":\"parse\"}" << std::endl; continue; }
 		std::string fn = q.value("fn", std::string());
 		if (fn == "quit") break;
-		else if (fn == "fs") r = ip_control(q);
+		else if (fn == "fs" || fn == "rng") r = ip_control(q);
 		else if (fn == "threads") r = run_threads(q);
 		else if (fn == "ping") { r["pong"] = true; r["pid"] = getpid(); }
 		else r = timed_call(q, 0, nullptr);
